@@ -11,7 +11,9 @@ def h(mode, name, what, unwind=6, defines=(), timeout=900, solver="cadical", unw
     for k in range(12): us["main.%d" % k] = 17
     us.update(unwindset or {})
     return H(name, "harness/hal/devman.c", repo=[], env=[], defines=["MODE=%d" % mode] + list(defines), pre=dm.pre_dm(VERIF), unwind=unwind, unwindset=us,
-             solver=solver, timeout=timeout, mem_gb=16, what=what)
+             solver=solver, timeout=timeout, mem_gb=16, what=what,
+             bounds=dict(devices="0..%s" % [x for x in defines if x.startswith("NID=")][0][4:], name_bytes=2, pattern_bytes="0..%s" % [x for x in defines if x.startswith("PMAX=")][0][5:],
+                         index="16 representative values 0..2^32-1", driver_id="9 representative values 0..255", regex_engine="oracle"))
 
 def harnesses(tier, findings):
     big = tier == "thorough"
